@@ -2,7 +2,9 @@
 (***************************************************************************)
 (* Validation of the records produced by running the REAL dag.Construct    *)
 (* (harness/dag_h.py) on the engines materialised from TLC's programs.     *)
-(* One trace per program, one line (step "construct") per trace:           *)
+(* One trace per program, two lines per trace (steps "construct" and       *)
+(* "construct-reversed": the same engine with the factory lists reversed,  *)
+(* i.e. another insertion order):                                          *)
 (*   prog   the program as TLC exported it (Dag_Gen / Dag_Sim)             *)
 (*   obs    ok / err, the algorithm tree (one record per node OBJECT met   *)
 (*          by walking children from Construct.at: tag, children, ancestry,*)
